@@ -145,13 +145,17 @@ HARNESSES = [
          cases=[dict(id="depth%d" % d, defines={"OP_DEPTH": d}, unwind=d + 2,
                      tier="quick") for d in (0, 1, 4)]),
     dict(name="fill_dir", file="fill_dir.c",
-         label="bounded(entries per directory <= 2, ancestor chain <= 2)", timeout=170,
+         label="bounded(entries per directory <= 1, ancestor chain <= 2)", timeout=170,
          pre_instrument_flags=["--replace-calls", "create_node:stub_create_node"],
          fp={"destroy": "fd_destroy", "copy": "fd_copy"}, native=False, unwind=5,
+         # --pointer-overflow-check alone makes this harness run > 60 s (1.5 s
+         # without); fill_dir does no pointer arithmetic, only list linking
+         nochecks=["--pointer-overflow-check"], solver="cadical",
          cases=[dict(id="n0", defines={"FD_NENT": 0}, tier="quick")] +
                [dict(id="n1_t%d" % t, defines={"FD_NENT": 1, "FD_T0": t}, tier="quick")
                 for t in (0, 1, 2)] +
                [dict(id="n2_t%d%d" % (a, b), defines={"FD_NENT": 2, "FD_T0": a, "FD_T1": b},
                      tier="quick" if (a, b) in ((1, 2), (2, 1)) else "thorough")
                 for a in (0, 1, 2) for b in (0, 1, 2)]),
+
 ]
